@@ -160,6 +160,16 @@ def _run_case(case, rec, mon=None):
     except Exception:
         rec.count("bank_construction_raised")
         bank = None
+    if bank is not None and case["idx"] % 7 == 5:
+        from ..common import copied, COPY_WAYS
+
+        way = COPY_WAYS[(case["idx"] // 7) % 3]
+        try:
+            bank = copied(bank, way)  # the bank as a worker process / a copied computer sees it
+            rec.count("banks_asked_through_a_%s" % way)
+        except Exception as e:
+            mon.v("copying (%s) a %s bank raised %r" % (way, cfg["name"], e), check="copy_raise", cfg=cfg)
+            bank = None
     if bank is not None:
         mon.cfg_of[id(bank)] = cfg
         nf = bank.num_filts
